@@ -804,7 +804,8 @@ fn premise_monitor(rep: &mut Report, rules: &[(&'static str, Box<dyn PatternLint
         let doc = frontends::make_document(fe, text, dict);
         let src = doc.get_source();
         let mut bad: Vec<String> = vec![];
-        let (mut n_lints, mut n_chunks, mut hull_outside) = (0u64, 0u64, 0u64);
+        let (mut n_lints, mut n_chunks, mut hull_outside, mut n_none) = (0u64, 0u64, 0u64, 0u64);
+        let mut rcases: Vec<(String, String, String)> = vec![];
         for ch in doc.iter_chunks() {
             let Some(sp) = ch.span() else { continue };
             n_chunks += 1;
@@ -813,23 +814,44 @@ fn premise_monitor(rep: &mut Report, rules: &[(&'static str, Box<dyn PatternLint
                 continue;
             }
             for (name, rule) in rules {
-                for l in run_on_chunk_replica(rule.as_ref(), ch, src) {
+                // run_on_chunk again, match by match (the replica above is the one cross-checked against the library):
+                // every slice handed to match_to_lint with the span of the lint it makes -> `R` correspondence line
+                let mut cur = 0;
+                while cur < ch.len() {
+                    let n = rule.pattern().matches(&ch[cur..], src);
+                    if n == 0 {
+                        cur += 1;
+                        continue;
+                    }
+                    let m = &ch[cur..cur + n];
+                    cur += n;
+                    let Some(l) = rule.match_to_lint(m, src) else {
+                        n_none += 1;
+                        continue;
+                    };
                     n_lints += 1;
                     if !(sp.start <= l.span.start && l.span.start <= l.span.end && l.span.end <= sp.end) {
                         bad.push(format!("{name} reports {:?} for the chunk {:?}", l.span, sp));
                     }
+                    let spans: Vec<String> = m.iter().map(|t| format!("{} {}", t.span.start, t.span.end)).collect();
+                    rcases.push((name.to_string(), format!("R {name} {} {} | {}", l.span.start, l.span.end, spans.join(" ")), format!("{} {}", l.span.start, l.span.end)));
                 }
             }
         }
-        (bad, n_lints, n_chunks, hull_outside)
+        (bad, n_lints, n_chunks, hull_outside, rcases, n_none)
     });
-    let Ok((bad, n_lints, n_chunks, hull_outside)) = r else {
+    let Ok((bad, n_lints, n_chunks, hull_outside, rcases, n_none)) = r else {
         rep.count("premise:document_or_rule_panicked(C01's business)");
         return;
     };
     rep.eval();
     rep.count_n("premise:chunks", n_chunks);
     rep.count_n("premise:pattern_rule_lints", n_lints);
+    rep.count_n("premise:match_to_lint_returned_None", n_none);
+    for (name, case, imp) in rcases {
+        rep.count(&format!("R:{name}"));
+        rep.case(&case, &imp);
+    }
     rep.monitor("pattern_rule_lint_outside_chunk", bad.len() as u64);
     rep.monitor("chunk_hull_outside_source", hull_outside);
     if hull_outside > 0 {
@@ -876,7 +898,7 @@ pub fn replay_input(rep: &mut Report, v: &Value, group: &mut LintGroup, dict: &s
 
 pub fn run(a: &Args, corpus: &[Value]) {
     let mut rep = Report::new(&a.out);
-    rep.rule = "(text, span, suggestion) triples: random (|text|<=12, alphabet incl. astral chars; spans inside the text incl. both ends, empty spans, equal-length replace) + a malformed stream of spans outside the text (panic agreement only); documents in every front-end (plain, Markdown x2, HTML, Typst, LHS, git-commit, 22 comment languages, +CollapseIdentifiers/+IsolateEnglish) under default / all-rules / random configurations: every lint in bounds, every suggestion = splice; thorough adds all triples with |text|<=6 over {a,b}. span.rs: every function (19 opcodes) on random spans / arguments incl. values up to usize::MAX and ill-formed spans, with the algebra (inverse laws, with_len, overlaps = shared position, get_content = slice) evaluated on the implementation, thorough adds all spans/arguments over 0..=5; LintGroup::lint: histories (configuration changes, 2-5 documents built from a pool of clauses that recur at other offsets, twin clauses) on one LintGroup::empty() carrying 3 whole-document and 5 pattern test rules (two stateful, two deliberately violating the chunk premise: panics and out-of-bounds lints included), in-bounds oracle when only well-behaved rules are enabled; premise monitor: 29 exported pattern rules run chunk by chunk on the generated documents, every lint inside its chunk. non-trivial = distinct in-bounds triple, distinct document with >=1 lint, distinct span case, or history with a clause recurring at another offset".into();
+    rep.rule = "(text, span, suggestion) triples: random (|text|<=12, alphabet incl. astral chars; spans inside the text incl. both ends, empty spans, equal-length replace) + a malformed stream of spans outside the text (panic agreement only); documents in every front-end (plain, Markdown x2, HTML, Typst, LHS, git-commit, 22 comment languages, +CollapseIdentifiers/+IsolateEnglish) under default / all-rules / random configurations: every lint in bounds, every suggestion = splice; thorough adds all triples with |text|<=6 over {a,b}. span.rs: every function (19 opcodes) on random spans / arguments incl. values up to usize::MAX and ill-formed spans, with the algebra (inverse laws, with_len, overlaps = shared position, get_content = slice) evaluated on the implementation, thorough adds all spans/arguments over 0..=5; LintGroup::lint: histories (configuration changes, 2-5 documents built from a pool of clauses that recur at other offsets, twin clauses) on one LintGroup::empty() carrying 3 whole-document and 5 pattern test rules (two stateful, two deliberately violating the chunk premise: panics and out-of-bounds lints included), in-bounds oracle when only well-behaved rules are enabled; premise monitor: 29 exported pattern rules run chunk by chunk on the generated documents, every lint inside its chunk; every slice run_on_chunk hands to their match_to_lint with the span of the lint made = `R` correspondence line against the table-driven body model (C03Roots.run_rule_span). non-trivial = distinct in-bounds triple, distinct document with >=1 lint, distinct span case, or history with a clause recurring at another offset".into();
     let dict = FstDictionary::curated();
     let mut group = LintGroup::new_curated(dict.clone(), Dialect::American);
     for c in corpus {
@@ -988,7 +1010,11 @@ pub fn run(a: &Args, corpus: &[Value]) {
     fes.push("plain+ie".into());
     let per_fe = a.scale(14, 160);
     let real_rules = real_pattern_rules();
-    for c in gen::TRIGGERS {
+    // phrases for the pattern rules gen::TRIGGERS does not reach (the `R` lines should cover all 29 rules)
+    const MORE_TRIGGERS: &[&str] = &["a text fro Sarah", "away fro sure", "I would argue that this is so", "I here by declare this",
+        "the amateur expert spoke", "it is advancing backwards", "managed to peak his interest", "peeked his interest",
+        "it is wide accepted that", "wide acceptable standards"];
+    for c in gen::TRIGGERS.iter().chain(MORE_TRIGGERS.iter()) {
         for _ in 0..a.scale(2, 10) {
             let text = format!("{} {}, {} {c}; {}", gen::clean_sentence(&mut r), c, gen::clean_sentence(&mut r).to_lowercase(), gen::clean_sentence(&mut r));
             premise_monitor(&mut rep, &real_rules, "plain", &text, &dict);
